@@ -264,6 +264,68 @@ def multi_file_stage(ck, rng, oracles, thorough, stats, nviol):
     return nviol
 
 
+def all_arms_stage(ck, aa, oracles, stats, nviol):
+    """'All arms terminate' compositions (aa = pygen.all_arms_bodies(...)): pyscn's dead ranges against the markers CPython executes."""
+    import time as _time
+    t0 = _time.time()
+    core, rest, total = aa
+    labelled = core + rest
+    per = 40
+    mods = []
+    for off in range(0, len(labelled), per):
+        chunk = labelled[off:off + per]
+        ast, lines = pygen.layout([('def', 0, i + 1, b) for i, (_l, b) in enumerate(chunk)])
+        mods.append({"ast": ast, "lines": lines, "labels": {"f%d" % (i + 1): l for i, (l, _b) in enumerate(chunk)}})
+    d = lib.fresh_dir("c01_arms")
+    cc.write_modules(mods, d, prefix="a")
+    rc, data, err = cc.run_pyscn(d, select="deadcode")
+    if data is None:
+        ck.broken_ties.append("all-arms stream: pyscn produced no report (rc=%s): %s" % (rc, err[-300:]))
+        return nviol
+    cc.index_report(data, mods)
+    cc.cpython_traces(mods, oracles)
+    st = dict(functions=0, core=len(core), sampled_of_the_rest=len(rest), rest_total=total, runs=0, executed_markers=0, dead_ranges=0,
+              functions_with_dead_code=0, executed_finally_markers=0, functions_whose_every_arm_jumps=0, disagreements=0, by_depth={})
+    stats["all_arms"] = st
+    for m in mods:
+        for name, lst in cc.def_table(m).items():
+            s, path = lst[0]
+            lab = m["labels"].get(name, "?")
+            ranges = m["impl_dead"].get(name, [])
+            st["functions"] += 1
+            st["dead_ranges"] += len(ranges)
+            st["functions_with_dead_code"] += bool(ranges)
+            dp = lab.count(">") + 2
+            st["by_depth"][dp] = st["by_depth"].get(dp, 0) + 1
+            pat = lab[lab.rfind("(") + 1:-1].split(",")
+            st["functions_whose_every_arm_jumps"] += all(t != "none" for t in pat)
+            fin = set()                   # markers inside finally clauses of this function
+            for x in pygen.own_statements(s[3]):
+                if x[0] == 'try' and x[5] is not None:
+                    fin.update(y[1] for y in pygen.own_statements(x[5]))
+            for oi, (trace, outc) in enumerate(m["py_traces"].get(s[1]) or []):
+                st["runs"] += 1
+                st["executed_markers"] += len(trace)
+                st["executed_finally_markers"] += sum(1 for k in trace if k in fin)
+                bad = [k for k in trace if cc.covered(k, ranges)]
+                if bad:
+                    st["disagreements"] += 1
+                    if st["disagreements"] <= 2:          # reported whatever the earlier stages found: the stream speaks for itself
+                        nviol += 1
+                        ck.violation("statement at line %d of %s (%s) executes under CPython (oracle %s) but lies in a range pyscn reports as dead code: %s; "
+                                     "composition %s" % (bad[0], name, m["lines"][bad[0] - 1].strip()[:40], oracles[oi],
+                                                          [r for r in ranges if r[0] <= bad[0] <= r[1]], lab),
+                                     {"kind": "live-flagged-dead", "file": m["path"], "function": name, "composition": lab,
+                                      "source": m["lines"][s[1] - 1:pygen.end_line(s)], "first_line": s[1],
+                                      "oracle": oracles[oi], "executed_line": bad[0], "trace": trace, "dead_ranges": ranges,
+                                      "found_by": "all-arms-terminate compositions"}, independent=True)
+                    break
+    if not st["dead_ranges"] or not st["executed_finally_markers"] or not st["functions_whose_every_arm_jumps"]:
+        ck.broken_ties.append("all-arms stream is vacuous: %s" % st)
+    st["seconds"] = round(_time.time() - t0, 1)
+    return nviol
+
+
 def main(tier):
     ck = lib.Check("C01", tier)
     ck.prepare("C01.v")
@@ -285,6 +347,11 @@ def main(tier):
     mods += pygen.modules_from_bodies(fb2 + (fb3[len(fb2):] if thorough else fb3 + pygen.routing_frame_bodies()))
     # multi-arm statements, every terminate/fall-through pattern of the arms (if with up to 4 elif, try with up to 3 handlers, match)
     mods += pygen.modules_from_bodies(pygen.arm_chain_bodies())
+    # 'all arms terminate' compositions (a multi-arm statement whose arms independently return / raise / break / continue / fall
+    # through, inside frames with a finally, depth 2 and 3): all of them go through the CPython-witness stage below (all_arms_stage),
+    # a sample of them also through the model ties with the modules above
+    aa = pygen.all_arms_bodies(rng, 20000 if thorough else 1500)
+    mods += pygen.modules_from_bodies([b for _l, b in rng.sample(aa[0] + aa[1], 600 if thorough else 80)])
     d = lib.fresh_dir("c01")
     cc.write_modules(mods, d)
     oracles = cc.gen_oracles(rng, n_orc)
@@ -353,6 +420,11 @@ def main(tier):
         nviol = multi_file_stage(ck, rng, oracles, thorough, stats, nviol)
     except Exception as e:
         ck.broken_ties.append("multi-file stage failed: " + str(e)[-600:])
+    # ---- 'all arms terminate' compositions: the cleanup clauses of the outer frames are reachable only through the jumps ----
+    try:
+        nviol = all_arms_stage(ck, aa, oracles, stats, nviol)
+    except Exception as e:
+        ck.broken_ties.append("all-arms stage failed: " + str(e)[-600:])
     sem_mism = tie_mism = 0
     suspects = []   # statements pyscn calls dead and the model calls live: candidates for a CPython witness
     for m in mods:
@@ -481,7 +553,14 @@ def main(tier):
                 "files in the root and in a sub-package) analysed in ONE invocation each of `analyze --select complexity,deadcode .`, "
                 "`analyze --select deadcode <files sorted>`, `<files reversed>`, `check --select deadcode .` and `check <files reversed>`; per "
                 "reported file X: no line CPython executes in X lies in any range reported under X (whatever function the row names), every row "
-                "names a def of X and stays inside its lines, no row is reported under a path outside the project",
+                "names a def of X and stays inside its lines, no row is reported under a path outside the project; "
+                "plus the all-arms-terminate stream (input_distribution.all_arms): an inner multi-arm statement (if/else, if/elif/else, try with 1-2 "
+                "handlers and with else, match, with) whose arms independently end in return/raise/break/continue/fall-through, directly or through "
+                "if/if-else/with/while/for-else inside the body/handler/else/finally of an outer try..finally (or a with) whose other arms fall through "
+                "or terminate, depth 2 and depth 3 (try..finally around try/except or try/finally around the inner statement), plain and inside a loop; "
+                "'core' (no loop, depth 2: every arm assignment over return/raise/fall-through x every outer frame; depth 3: uniform arms x every frame "
+                "pair) is enumerated completely, 'sampled_of_the_rest' of 'rest_total' are drawn; every function runs under every oracle and no executed "
+                "marker (those in the finally clauses are counted) may lie in a reported range; a sample of these bodies is also in the model-tied modules",
         "input_distribution": stats,
         "disagreements_checked": nviol + tie_mism + sem_mism + stats.get("multi_file", {}).get("disagreements", 0),
         "oracles": len(oracles), "modules": len(mods),
